@@ -149,6 +149,11 @@ pub fn fuzz(id: &str, data: &[u8]) {
                 }
                 norm_presentation(&mut c.pa);
                 norm_presentation(&mut c.pb);
+                if let Some(l) = c.lead {
+                    if !c.items.contains(&l) {
+                        c.items.push(l);
+                    }
+                }
                 true
             },
             c04::eval,
@@ -273,7 +278,7 @@ pub fn fuzz(id: &str, data: &[u8]) {
                 c.m = 1 + c.m % 70;
                 for op in c.ops.iter_mut() {
                     match op {
-                        c15::Op::Update(_, v) | c15::Op::Fill(v, _) => {
+                        c15::Op::Update(_, v) | c15::Op::Fill(v, _) | c15::Op::Stride(_, v) => {
                             if !v.0.is_finite() {
                                 v.0 = 1.0;
                             }
